@@ -18,7 +18,11 @@ func TestSizes(t *testing.T) {
 				runs += 2 * len(entriesFor(u.Part, th, vt))
 			}
 		}
-		fmt.Printf("thorough=%v units=%d pairs=%v runs=%d\n", th, len(us), pairs, runs)
+		twinRuns := 0
+		for _, u := range twinUnits(th) {
+			twinCases(u, th, func(Case, string) { twinRuns++ })
+		}
+		fmt.Printf("thorough=%v units=%d pairs=%v runs=%d + twins: units=%d pairs=%d runs=%d\n", th, len(us), pairs, runs, len(twinUnits(th)), twinPairs(th), twinRuns)
 	}
 }
 
